@@ -154,6 +154,8 @@ MUTANTS = {
         ('src/portfolio/io/tx_csv.rs', 'let san_col = lower_col.trim();', 'let san_col = lower_col.as_str();')]),
     'c07_filter_before_enumerate': ('C07', ['R7d|portfolio::io::tx_csv::parse_tx_csv|enumerate'], [
         ('src/portfolio/io/tx_csv.rs', 'for (i, col_val) in record.iter().enumerate() {', 'for (i, col_val) in record.iter().filter(|c| !c.is_empty()).enumerate() {')]),
+    'c07_index_shifted': ('C07', ['same-index-stored-and-fetched'], [
+        ('src/portfolio/io/tx_csv.rs', 'match col_index_to_name.get(&i) {', 'match col_index_to_name.get(&(i + 1)) {')]),
     # ------------------------------------------------------------------ C08
     'c08_split_error_aborts': ('C08', ['R8a|app::approot::run_acb_app_to_delta_models'], [
         ('src/app/approot.rs', '        if let Err(e) =\n            crate::portfolio::splits::replace_global_security_splits(&mut sec_txs)\n        {\n            delta_results.insert(\n                sec,\n                DeltaListResult(Err(TxDeltaListError::new(Vec::new(), e))),\n            );\n            continue;\n        }',
